@@ -224,7 +224,7 @@ def choose_step(rng, w, flavor, last=None):
                  ("T", 1), ("sort", 1), ("join", 1), ("aggregate", 1), ("window", 1), ("tarith", 1), ("fingerprint", 3),
                  ("repr", 1), ("stackdict", 1), ("append", 1), ("renames", 1), ("probe", 3)]
     if tabs and vecs:
-        menu += [("setattr", 5), ("stack", 3), ("stackdictv", 2)]
+        menu += [("setattr", 5), ("stack", 3), ("stackdictv", 2), ("stackvt", 2)]
     if tabs:
         menu += [("setattr_list", 3)]
     if len(tabs) >= 2:
@@ -339,6 +339,9 @@ def choose_step(rng, w, flavor, last=None):
         a = rng.choice(tabs)
         b = rng.choice(vecs + tabs)
         return {"op": "stack", "dst": dst, "a": a, "b": b}
+    if op == "stackvt":
+        # a vector stacked IN FRONT of a table: `v >> t`
+        return {"op": "stackvt", "dst": dst, "a": rng.choice(tabs), "b": rng.choice(vecs)}
     if op == "stackdictv":
         return {"op": "stackdictv", "dst": dst, "a": rng.choice(tabs), "name": rng.choice(["n", "a", "zz"]), "src": rng.choice(vecs)}
     if op == "stackdict":
@@ -472,6 +475,8 @@ def run_step(w, st):
             sl[st["t"]].rename_columns(list(st["olds"]), list(st["news"]))
         elif op == "stack":
             sl[st["dst"]] = sl[st["a"]] >> sl[st["b"]]
+        elif op == "stackvt":
+            sl[st["dst"]] = sl[st["b"]] >> sl[st["a"]]
         elif op == "stackdictv":
             sl[st["dst"]] = sl[st["a"]] >> {st["name"]: sl[st["src"]]}
         elif op == "stackdict":
@@ -536,7 +541,7 @@ def run_step(w, st):
 # operations that have no business raising AttributeError / NameError / UnboundLocalError / RecursionError: those are crashes on a
 # legitimate call, not refusals (attribute-style column access and the read-only probes are excluded: there AttributeError is the
 # documented answer for a missing column / a method the element type does not have)
-NO_CRASH_OPS = {"newvec", "newtab", "tabfrom", "copy", "slice", "mask", "select", "stack", "stackdict", "stackdictv", "append",
+NO_CRASH_OPS = {"newvec", "newtab", "tabfrom", "copy", "slice", "mask", "select", "stack", "stackvt", "stackdict", "stackdictv", "append",
                 "appendt", "T", "sort", "sortv", "aggregate", "window", "arith", "tarith", "compare", "unary", "fillna", "write",
                 "tabwrite", "rename", "renames", "fingerprint", "repr", "sharevec", "setname"}
 CRASH_CLASSES = {"attr", "other:NameError", "other:UnboundLocalError", "other:RecursionError"}
@@ -581,7 +586,7 @@ def applicable(w, st):
     need = {"copy": [("src", "vt")], "slice": [("src", "vt")], "mask": [("src", "vt")], "select": [("src", "t")],
             "getcol": [("t", "t")], "setattr": [("t", "t"), ("src", "v")], "setattr_list": [("t", "t")], "write": [("r", "v")], "tabwrite": [("t", "t")],
             "setname": [("r", "v")], "rename": [("t", "t")], "renames": [("t", "t")], "stack": [("a", "t"), ("b", "vt")],
-            "stackdict": [("a", "t")], "stackdictv": [("a", "t"), ("src", "v")], "append": [("a", "t")], "appendt": [("a", "t"), ("b", "t")], "T": [("src", "t")],
+            "stackdict": [("a", "t")], "stackdictv": [("a", "t"), ("src", "v")], "stackvt": [("a", "t"), ("b", "v")], "append": [("a", "t")], "appendt": [("a", "t"), ("b", "t")], "T": [("src", "t")],
             "sort": [("src", "t")], "sortv": [("src", "v")], "aggregate": [("src", "t")], "window": [("src", "t")],
             "join": [("L", "t"), ("R", "t")], "arith": [("a", "v")], "tarith": [("a", "t")], "compare": [("a", "v")],
             "unary": [("a", "v")], "fillna": [("a", "v")], "fingerprint": [("r", "vt")], "repr": [("r", "vt")], "probe": [("r", "vt")],
